@@ -516,6 +516,13 @@ def step (ss : Slots) (line : String) : String × Slots :=
       | _, .src .. => ("unsupported", ss)
       | a, v => if a.sameKind v then ("ok", setSlot ss d v) else ("unsupported", ss)
     | _, _ => ("bad-op", ss)
+  | ["rth", d, s] =>
+    -- round trip through a human-readable serde format: the restored generator is the original (as for `rt`)
+    match d.toNat?, s.toNat? with
+    | some d, some s => match (getSlot ss s).rt with
+      | some v => ("ok", setSlot ss d v)
+      | none => ("unsupported", setSlot ss d .empty)
+    | _, _ => ("bad-op", ss)
   | ["rt", d, s] =>
     match d.toNat?, s.toNat? with
     | some d, some s => match (getSlot ss s).rt with
